@@ -31,14 +31,19 @@ def proportional (part whole : Order) (k n : Int) : Bool :=
     && (denoms part.fees ++ denoms whole.fees).all fun d =>
         decide (amountOf part.fees d * n = amountOf whole.fees d * k)
 
+/-- `a` is order `o` up to assets, price and fees (same id, side, owner, denoms, partial flag). -/
+def Order.sameParty (a o : Order) : Prop :=
+  a.id = o.id ∧ a.isAsk = o.isAsk ∧ a.owner = o.owner ∧ a.assetsDenom = o.assetsDenom ∧
+  a.priceDenom = o.priceDenom ∧ a.allowPartial = o.allowPartial
+
+instance (a o : Order) : Decidable (a.sameParty o) := by unfold Order.sameParty; exact inferInstance
+
 /-- What `Order.Split` promises (orders.go:243 doc + spec/01_concepts.md "Partial Orders"):
 `a` is the filled part, `b` what is left of `o` when `f` of its assets are filled. -/
 def splitViolation (o : Order) (f : Int) (a b : Order) : Option String :=
   if ¬ (0 < f ∧ f < o.assets) then some "split_amount_range"
   else if ¬ o.allowPartial then some "split_not_allowed"
-  else if ¬ (a.id = o.id ∧ b.id = o.id ∧ a.owner = o.owner ∧ b.owner = o.owner ∧ a.isAsk = o.isAsk ∧ b.isAsk = o.isAsk
-      ∧ a.assetsDenom = o.assetsDenom ∧ b.assetsDenom = o.assetsDenom ∧ a.priceDenom = o.priceDenom
-      ∧ b.priceDenom = o.priceDenom ∧ a.allowPartial = o.allowPartial ∧ b.allowPartial = o.allowPartial) then
+  else if ¬ (a.sameParty o ∧ b.sameParty o) then
     some "split_identity"
   else if ¬ (a.assets = f ∧ a.assets + b.assets = o.assets) then some "split_assets"
   else if a.price + b.price ≠ o.price then some "split_price_sum"
@@ -50,6 +55,11 @@ def splitViolation (o : Order) (f : Int) (a b : Order) : Option String :=
   else none
 
 /-! ### Settlement -/
+
+/-- the filled orders as `BuildSettlement` sees them: every ask with what it receives and its fees,
+then every bid (`populateFilled` only moves the partially filled one out of this list) -/
+def Plan.filledOrders (p : Plan) : List FilledOrder :=
+  zipFilled p.asks (filledA p.trP) p.askFees 0 ++ zipFilled p.bids (filledB p.trP) p.bidFees 0
 
 def Settlement.filled (s : Settlement) : List FilledOrder := s.fullyFilled ++ s.partialFilled.toList
 
